@@ -194,6 +194,46 @@ pub unsafe fn cond_same(c: &Condition, kind: u8) -> bool {
     }
 }
 
+/// structural equality of two parsed conditions (same kind, same payload / node identity)
+pub fn cond_eq(x: &Condition, y: &Condition) -> bool {
+    use Condition::*;
+    match (x, y) {
+        (AggSigUnsafe(a, b), AggSigUnsafe(c, d))
+        | (AggSigMe(a, b), AggSigMe(c, d))
+        | (AggSigParent(a, b), AggSigParent(c, d))
+        | (AggSigPuzzle(a, b), AggSigPuzzle(c, d))
+        | (AggSigAmount(a, b), AggSigAmount(c, d))
+        | (AggSigPuzzleAmount(a, b), AggSigPuzzleAmount(c, d))
+        | (AggSigParentAmount(a, b), AggSigParentAmount(c, d))
+        | (AggSigParentPuzzle(a, b), AggSigParentPuzzle(c, d)) => a == c && b == d,
+        (CreateCoin(a, v, h), CreateCoin(b, w, k)) => a == b && v == w && h == k,
+        (ReserveFee(a), ReserveFee(b))
+        | (AssertMyAmount(a), AssertMyAmount(b))
+        | (AssertMyBirthSeconds(a), AssertMyBirthSeconds(b))
+        | (AssertSecondsRelative(a), AssertSecondsRelative(b))
+        | (AssertSecondsAbsolute(a), AssertSecondsAbsolute(b))
+        | (AssertBeforeSecondsRelative(a), AssertBeforeSecondsRelative(b))
+        | (AssertBeforeSecondsAbsolute(a), AssertBeforeSecondsAbsolute(b))
+        | (Softfork(a), Softfork(b)) => a == b,
+        (AssertMyBirthHeight(a), AssertMyBirthHeight(b))
+        | (AssertHeightRelative(a), AssertHeightRelative(b))
+        | (AssertHeightAbsolute(a), AssertHeightAbsolute(b))
+        | (AssertBeforeHeightRelative(a), AssertBeforeHeightRelative(b))
+        | (AssertBeforeHeightAbsolute(a), AssertBeforeHeightAbsolute(b)) => a == b,
+        (CreateCoinAnnouncement(a), CreateCoinAnnouncement(b))
+        | (CreatePuzzleAnnouncement(a), CreatePuzzleAnnouncement(b))
+        | (AssertCoinAnnouncement(a), AssertCoinAnnouncement(b))
+        | (AssertPuzzleAnnouncement(a), AssertPuzzleAnnouncement(b))
+        | (AssertConcurrentSpend(a), AssertConcurrentSpend(b))
+        | (AssertConcurrentPuzzle(a), AssertConcurrentPuzzle(b))
+        | (AssertMyCoinId(a), AssertMyCoinId(b))
+        | (AssertMyParentId(a), AssertMyParentId(b))
+        | (AssertMyPuzzlehash(a), AssertMyPuzzlehash(b)) => a == b,
+        (AssertEphemeral, AssertEphemeral) | (Skip, Skip) | (SkipRelativeCondition, SkipRelativeCondition) => true,
+        _ => false,
+    }
+}
+
 /// the expected condition as a fresh value
 pub unsafe fn cond_build(kind: u8) -> Condition {
     match kind {
